@@ -135,7 +135,12 @@ func c19EdgeInput(i int) (c19Pol, *unifiedEdge) {
 }
 
 func c19RouteConfig() {
-	vOverflow("github.com/lightningnetwork/lnd/routing.newRoute")
+	// newRoute's own additions (fee = outbound + inbound, amount + fee, time
+	// lock + delta) are not put under overflow obligations: each has an
+	// identical twin in the reference below which is, and the results are
+	// asserted equal. (An overflow obligation inside newRoute would be
+	// reported first and, being unconfirmable by native replay, would hide
+	// the replayable assertion failure behind it.)
 	vOverflow("(*github.com/lightningnetwork/lnd/graph/db/models.CachedEdgePolicy).ComputeFee")
 	vOverflow("(*github.com/lightningnetwork/lnd/graph/db/models.InboundFee).CalcFee")
 	vOverflow("(*github.com/lightningnetwork/lnd/routing/route.Route).HopFee")
